@@ -5,3 +5,4 @@ import CnbVerif.Props.C01
 #print axioms CnbVerif.C01.stepOk_restored_preserves
 #print axioms CnbVerif.C01.stepOk_empty_is_empty
 #print axioms CnbVerif.C01.stepOk_others_untouched
+#print axioms CnbVerif.C01.stepOk_writers
